@@ -17,7 +17,10 @@ REG = dict(category="model_checking",
     "verify with mutations).",
     note="Trusted: TLC, overrides, harness. Ephemeral tags in generated records are points with known discrete logarithms (the code cannot tell); real NUMS generators "
     "are used in the driver traces. The return value of generate for keys that do not open the claimed difference or for an unselected claimed input is not "
-    "constrained (nothing is promised), only that no verifying proof results. The 2-byte sampling branch of the module's generator is unreachable through the API.",
+    "constrained (nothing is promised), only that no verifying proof results. The 2-byte sampling branch of the module's generator is unreachable through the API. "
+    "Implementation-defined outputs (which subset/index/iteration count Initialize yields, the bytes of a generated proof) are SOFT: a difference from the transcription "
+    "alone is no alarm; TLC then judges the observed event by the post-condition (selected subset of the requested size containing the returned, matching index; "
+    "generated proof verifies under the spec's Verify). Parse/serialize results, Verify verdicts, refusals and callback counts stay hard.",
     technique="TLA+ spec executed by TLC; design-level TLC model of the subset selection; spec-generated records (incl. spec-side forgeries) replayed into the C API; "
     "implementation traces validated by TLC",
     design_ref="DESIGN.md §4 C11")
@@ -87,27 +90,18 @@ def driver(chk, n_sessions):
     return iev + pev + chk.record(ver, "std")
 
 
-def replay_safe(chk, recs, variant, name):
-    """chk.replay, but survives a harness that dies in the middle of an output line (memory corruption by the code under
-    test leaves a cut-off JSON line, which the generic reader cannot parse): the batch is then split until the records on
-    which the implementation dies are isolated, and those are reported as violations."""
-    try:
-        return chk.replay(recs, variant, name)
-    except ValueError:
-        pass
-    if len(recs) == 1:
-        chk.violation("implementation crashed (output cut short) on a record of %s [%s]" % (name, variant), recs, variant)
-        return
-    step = max(1, len(recs) // 16)
-    for k in range(0, len(recs), step):
-        replay_safe(chk, recs[k:k + step], variant, name)
+# outputs whose derivation is implementation-defined (transcribed in the spec only to predict them): if only these differ,
+# TLC judges the observed event by the property's post-condition (Soft/Post/Judge in C11_Surjection.tla)
+SOFT = {"SjInit": ["ret", "idx", "nin", "nused", "ser", "ssize", "sret", "sret_short", "null"], "SjGenerate": ["proof"]}
+
+
+def replay_soft(chk, recs, variant, name):
+    chk.replay(recs, variant, name, soft=SOFT, soft_trace=TRACE)
 
 
 def run(chk):
     quick = chk.tier == "quick"
     chk.groups = ["surjection"]
-    # the harness interpreter keeps its line/output buffers until exit; only memory errors of the code under test matter here
-    os.environ["ASAN_OPTIONS"] = "detect_leaks=0"
     # the design-level model does not need the harness: compile while TLC runs it
     err = []
     def build():
@@ -124,17 +118,13 @@ def run(chk):
     if err:
         raise err[0]
     recs = chk.generate(MODULE, "C11_gen.cfg", "gen", timeout=1800 if quick else 7200)
-    replay_safe(chk, recs, "std", "generated surjection records")
+    replay_soft(chk, recs, "std", "generated surjection records")
     parser = [r for r in recs if r["e"] in ("SjParse", "SjInit")]
-    replay_safe(chk, parser if quick else recs, "asan", "generated parser/initialize records" if quick else "generated surjection records")
+    replay_soft(chk, parser if quick else recs, "asan", "generated parser/initialize records" if quick else "generated surjection records")
     if not quick:
         for v in ("verify", "i64"):
-            replay_safe(chk, recs, v, "generated surjection records")
-    try:
-        events = driver(chk, 28 if quick else 400)
-    except ValueError:
-        events = []
-        chk.violation("implementation crashed (output cut short) while the driver trace was recorded", [{"e": "SjDriver", "in": {"seed": chk.seed}}], "std")
+            replay_soft(chk, recs, v, "generated surjection records")
+    events = driver(chk, 28 if quick else 400)
     if events:
         chk.validate(events, MODULE, "C11_trace.cfg", "driver", timeout=3000)
     return chk.finish(LEVEL,
@@ -143,4 +133,5 @@ def run(chk):
         "bit flips, scalar substitutions, s+n re-encodings, tag-list edits) and every record is replayed; T: random asset lists through "
         "generate_blinded/initialize/generate/verify with mutations, decided by TLC. distinct_nontrivial counts distinct (action, specified result) classes.",
         ["overrides agree with the TLA+ definitions (spec/selftest)", "generators in generated records are arbitrary curve points (real NUMS generators only in driver traces)",
-         "generate's return value is unconstrained when the caller's keys/index do not match the tags"])
+         "generate's return value is unconstrained when the caller's keys/index do not match the tags",
+         "a 0 from initialize is accepted whenever a match is not forced by pigeonhole (whether the iteration limit was reached depends on implementation-defined sampling)"])
